@@ -386,6 +386,7 @@ impl<const N: usize> Drv<N> {
                 return self.emit(ev);
             }
             "mk" => {
+                ev.h = -1;
                 let t = Tracked::new(val);
                 ev.ids = vec![t.id as i64];
                 ev.vals = vec![val as i64];
@@ -393,6 +394,7 @@ impl<const N: usize> Drv<N> {
                 return self.emit(ev);
             }
             "caller_drop" => {
+                ev.h = -1;
                 let ids = gv(st, "ids");
                 let mut victims = Vec::new();
                 if ids.is_empty() {
@@ -542,7 +544,10 @@ impl<const N: usize> Drv<N> {
                 }
             }
             "fill_with" | "fill_spare_with" => {
-                let vals = gv(st, "vals");
+                let mut vals = gv(st, "vals");
+                if vals.is_empty() {
+                    vals.push(val as i64);
+                }
                 ev.vals = vals.clone();
                 let mut k = 0usize;
                 let f = || {
